@@ -22,6 +22,28 @@ check('C18',
       'machine-checked proof in Coq on code regenerated from source (T1) + model/implementation differential run',
       'DESIGN.md 5 C18')
 
+check('C01',
+      'Coq theorems C01_step / C01_pipeline (Props/C01.v, axiom-free): for every ledger (start time or none, rate > 0, length >= 0), '
+      'every slice (any bounds, step > 0), fast_len, cropped time shift, whole-sample snippet, dedispersion crops and every finite '
+      'pipeline of them, output sample k is input sample off+stride*k with 0 <= off+stride*k < len, carries exactly its absolute '
+      'time, rate is divided by the stride, None start stays None, stop = start + len/rate, and contains is the half-open interval. '
+      'C01_model_meets_spec links the model to the executable predicate C01_ok that the monitor evaluates on what the implementation '
+      'returned; the correspondence run compares model and implementation on random pipelines and a small exhaustive slice sweep.',
+      'Hand-written model tied by correspondence (not regenerated). Trusted: Coq kernel, Lib/PySlice = CPython slice.indices, astropy '
+      'Time/Quantity = exact rationals within max(50 ps, 4e-15*elapsed); FFT-path ops (time_shift, dedispersion) are observed through '
+      'their ledger only; rates 1 mHz - 5 GHz.',
+      'machine-checked proof in Coq over an exact-rational ledger model + model/implementation correspondence run (vm_compute)',
+      'DESIGN.md 5 C01')
+check('C02',
+      'Coq theorems (Props/C02.v, axiom-free): the alignment constants of the table GENERATED from core.py are 0, 1/2, 1; labels are '
+      'evenly spaced by chan_bw, lie in [min_freq, max_freq] of width nchan*chan_bw; odd nchan forces center; for every accepted '
+      'channel slice (and every nesting of slices) label\'(j) = label(lo+j), chan_bw kept, alignment center. Monitor C02_ok / '
+      'C02_slice_ok evaluated on the observed channel_freqs etc.; correspondence on all radio classes.',
+      'Trusted: Coq kernel, translator T2 (align table + textual pin of the label formula), float64 label arithmetic within '
+      '2^-49*(|cf|+n*bw); domain |cf|/bw <= 2^30.',
+      'machine-checked proof in Coq (Q) with generated constants (T2) + correspondence run',
+      'DESIGN.md 5 C02')
+
 ALL = [f'C{i:02d}' for i in range(1, 21)]
 
 def main():
